@@ -95,9 +95,9 @@ func (w *limWriter) Write(p []byte) (int, error) {
 }
 
 type fault struct {
-	kind         string // "", "r", "w", "nilr", "nilw"
-	idx, at      int
-	short        bool
+	kind    string // "", "r", "w", "nilr", "nilw"
+	idx, at int
+	short   bool
 }
 
 func parseFault(s string) fault {
